@@ -618,6 +618,95 @@ fn ev_json(task: usize, ev: &Event) -> Value {
            "f": sq_of(common::bitboard::bitboard::Bitboard(ev.from)), "t": sq_of(common::bitboard::bitboard::Bitboard(ev.to)), "p": ev.promo})
 }
 
+/// search-seqtrace <out.ndjson> --seed N --sequences S --seq-len L --depth D
+/// Games of the pawn-storm family played on with ONE search context, one worker thread (so that the order of
+/// the cache accesses is the program order), every cache access logged through hook H2.  Each search is one
+/// "schedule" record (as search-sched writes them) carrying `fresh`: whether the context was brand-new.
+pub fn seqtrace(args: &[String]) {
+    let seed = arg_u64(args, "--seed", 1);
+    let sequences = arg_u64(args, "--sequences", 2);
+    let seq_len = arg_u64(args, "--seq-len", 6);
+    let depth = arg_u64(args, "--depth", 3) as u8;
+    let log: Arc<Mutex<(Vec<Value>, usize)>> = Arc::new(Mutex::new((vec![], 0)));
+    let l2 = log.clone();
+    verif::install(Some(Arc::new(move |ev: &Event| {
+        let mut g = l2.lock().unwrap();
+        let me = match ev.kind {
+            Kind::TaskBegin => {
+                let id = g.1;
+                g.1 += 1;
+                TASK.with(|c| c.set(id));
+                id
+            }
+            _ => TASK.with(|c| c.get()),
+        };
+        g.0.push(ev_json(me, ev));
+    })));
+    let mut rng = Rng::new(seed);
+    let mut file = std::io::BufWriter::new(std::fs::File::create(&args[0]).unwrap());
+    let mut searches = 0u64;
+    let mut events = 0u64;
+    for s in 0..sequences {
+        FAMILY.with(|f| f.set(4));
+        let mut pos = random_sparse(&mut rng, 1);
+        FAMILY.with(|f| f.set(0));
+        let mut ctx = Some(SearchContext::new(depth));
+        for step in 0..seq_len {
+            {
+                let mut g = log.lock().unwrap();
+                g.0.clear();
+                g.1 = 0;
+            }
+            let mut b0 = pos.setup();
+            let t0 = b0.turn();
+            let nroot = MoveGenerator::with_cache_capacity(16).generate_moves(&mut b0, t0).len();
+            if nroot == 0 {
+                break;
+            }
+            let (res, _o, c, score) = search_once(&pos, 0, depth, 1, ctx.take());
+            let evs = std::mem::take(&mut log.lock().unwrap().0);
+            events += evs.len() as u64;
+            searches += 1;
+            let outcome = if res["kind"] == "ok" { json!({"kind": "ok", "m": res["m"], "score": score}) } else { res.clone() };
+            writeln!(file, "{}", json!({"t": "schedule", "pos": pos.to_json(), "depth": depth, "schedule": format!("seq{}:{}", s, step), "strategy": 0, "nroot": nroot,
+                "fresh": step == 0, "outcome": outcome, "events": evs})).unwrap();
+            ctx = c;
+            if ctx.is_none() || res["kind"] != "ok" {
+                break;
+            }
+            // play the engine's move and a random reply (pawn double steps preferred: en-passant rights come and go)
+            let mut board = pos.setup();
+            let m = Mv::from_json(&res["m"]).to_chess_move(board.turn());
+            if m.apply(&mut board).is_err() {
+                break;
+            }
+            board.toggle_turn();
+            let mut g = MoveGenerator::with_cache_capacity(16);
+            let t = board.turn();
+            let replies = g.generate_moves(&mut board, t);
+            if replies.is_empty() {
+                break;
+            }
+            let doubles: Vec<&chess::chess_move::chess_move::ChessMove> = replies
+                .iter()
+                .filter(|m| {
+                    let x = Mv::of(m);
+                    (x.t as i32 - x.f as i32).abs() == 16 && (board.get(m.from_square()).map(|(p, _)| kind_of(p) == 1).unwrap_or(false))
+                })
+                .collect();
+            let r = if !doubles.is_empty() && rng.chance(1, 2) { doubles[rng.below(doubles.len())].clone() } else { replies[rng.below(replies.len())].clone() };
+            if r.apply(&mut board).is_err() {
+                break;
+            }
+            board.toggle_turn();
+            pos = Pos::of_board(&board);
+        }
+    }
+    verif::install(None);
+    file.flush().unwrap();
+    println!("{}", json!({"searches": searches, "events": events}));
+}
+
 /// search-sched <out.ndjson> --seed N --positions P --schedules S --depth D --max-extra E [--log-one-in K]
 pub fn sched(args: &[String]) {
     let seed = arg_u64(args, "--seed", 1);
